@@ -346,7 +346,10 @@ class C08(Prop):
         except Exception as e:
             return {"build_error": type(e).__name__, "detail": str(e)[:300]}
         g = graphs[-1]
-        obs: dict[str, Any] = {"spec": spec_obs(g)}
+        try:
+            obs: dict[str, Any] = {"spec": spec_obs(g)}
+        except Exception as e:  # noqa: BLE001 - a graph that was built has an input specification
+            return {"build_error": "inputs:" + type(e).__name__, "detail": f"reading .inputs of the constructed graph raised {type(e).__name__}: {e}"[:300]}
         eff = g
         if case["rtselect"] is not None:
             try:
